@@ -1,11 +1,16 @@
 """C13 - packet sequencer yields start + (n mod 10) under any update history."""
 from eolib.packet.packet_sequencer import PacketSequencer
-from eolib.packet.sequence_start import SimpleSequenceStart, SequenceStart, AccountReplySequenceStart, InitSequenceStart, PingSequenceStart
+from eolib.packet.sequence_start import SequenceStart, AccountReplySequenceStart, InitSequenceStart, PingSequenceStart
+
+
+def start_of(v):
+    """a start with an arbitrary integer value, through the public API only"""
+    return AccountReplySequenceStart.from_value(v)
 
 
 def constructor():
     s0 = sym_int("s0")
-    q = PacketSequencer(SimpleSequenceStart(s0))
+    q = PacketSequencer(start_of(s0))
     check(q.next_sequence() == s0, "first sequence is the start value (n = 0)")
 
 
@@ -14,7 +19,7 @@ def step():
     n = sym_int("n", 0, None)
     s0 = sym_int("s0")
     s1 = sym_int("s1")
-    q = PacketSequencer(SimpleSequenceStart(s0))
+    q = PacketSequencer(start_of(s0))
     # drive the real object into 'n requests made' through its own code for the residue, then
     # assert that this equals the invariant state (so no private attribute is assumed)
     r = fork(n % 10)
@@ -22,10 +27,10 @@ def step():
         q.next_sequence()
     # n = 10*k + r requests leave the same state as r requests (shown by wrap() below)
     check(q.next_sequence() == s0 + n % 10, "n-th sequence == start + n mod 10")
-    q.set_sequence_start(SimpleSequenceStart(s1))
+    q.set_sequence_start(start_of(s1))
     check(q.next_sequence() == s1 + (n + 1) % 10, "update keeps the counter")
-    q.set_sequence_start(SimpleSequenceStart(s0))
-    q.set_sequence_start(SimpleSequenceStart(s1))
+    q.set_sequence_start(start_of(s0))
+    q.set_sequence_start(start_of(s1))
     check(q.next_sequence() == s1 + (n + 2) % 10, "repeated updates keep the counter")
 
 
@@ -33,8 +38,8 @@ def wrap():
     """Ten requests return the sequencer to an observationally identical state (period exactly 10)."""
     s0 = sym_int("s0")
     k = sym_int("k", 0, 9)
-    a = PacketSequencer(SimpleSequenceStart(s0))
-    b = PacketSequencer(SimpleSequenceStart(s0))
+    a = PacketSequencer(start_of(s0))
+    b = PacketSequencer(start_of(s0))
     r = fork(k)
     for _ in range(r):
         a.next_sequence()
@@ -49,7 +54,7 @@ def history(depth):
     """BMC through the public API only: every op string over {next, set(v)} of the given depth,
     ops chosen by symbolic booleans, start values symbolic."""
     s = sym_int("s0")
-    q = PacketSequencer(SimpleSequenceStart(s))
+    q = PacketSequencer(start_of(s))
     n = 0
     for i in range(depth):
         is_next = sym_bool("op%d" % i)
@@ -59,7 +64,7 @@ def history(depth):
             check(got == s + n % 10, "n-th sequence == start in force + n mod 10")
             n += 1
         else:
-            q.set_sequence_start(SimpleSequenceStart(v))
+            q.set_sequence_start(start_of(v))
             s = v
     check(q.next_sequence() == s + n % 10, "final request")
 
